@@ -19,6 +19,7 @@ import vlib  # noqa: E402
 REC = {"P0010", "P0013"}
 
 
+import graphreal  # noqa: E402
 from graphreal import outs, realise_fb, realise_struct, realise_mixed, realise_enum_alias  # noqa: E402
 
 
@@ -43,6 +44,7 @@ def main():
     for g in graphs:
         reals = [("fb", realise_fb(g)), ("struct", realise_struct(g)), ("struct+alias", realise_struct(g, alias=True)),
                  ("mixed-odd-fb", realise_mixed(g, 1)), ("mixed-even-fb", realise_mixed(g, 0)),
+                 ("struct-in-context", graphreal.in_context(realise_struct(g))), ("mixed-in-context", graphreal.in_context(realise_mixed(g, 1))),
                  ("fb-arrays-of-instances", realise_fb(g, arrays=True)), ("struct-array-elements", realise_struct(g, arrays=True)),
                  ("fb-lowercase-refs", realise_fb(g, ref="n%d")), ("struct+alias-lowercase-refs", realise_struct(g, alias=True, ref="n%d"))]
         if all(len(outs(g, i)) <= 1 for i in range(1, g["n"] + 1)):
